@@ -59,6 +59,7 @@ fn env_case(rng: &mut Rng, projects: &[String], faults: bool) -> Value {
         "thor_v": rng.below(3),
         "stdout_to": rng.pick(&["pipe", "pipe", "file", "file", "tty", "slow_pipe_stop", "dev_full", "closed_pipe"]),
         "args_variant": rng.pick(&["plain", "plain", "dup_flag", "unknown_opt"]),
+        "out_form": rng.pick(&["abs", "abs", "rel", "rel_subdir"]),
     })
 }
 
@@ -207,6 +208,11 @@ pub fn run(tier: &str, seed: u64, replay: Option<String>) -> i32 {
         for (form, name) in [("symlink", "Proyecto [rev2]"), ("rel", "casa (copia) 1")] {
             env_jobs.push(json!({"t":"env","project":p,"tool":"hulc2model","use_extra":false,"fs":["odd_dir_name"],"odd_name":name,"rust_log":Value::Null,
                 "path_form":form,"hash_seed":0,"fake_time":Value::Null,"lang":Value::Null,"thor_r":false,"thor_v":0}));
+        }
+        // -o / -r given relative to the working directory, the project reached by another path
+        for (of, pf) in [("rel", "abs"), ("rel_subdir", "rel"), ("rel", "symlink")] {
+            env_jobs.push(json!({"t":"env","project":p,"tool":"thor","use_extra":false,"fs":[],"rust_log":Value::Null,
+                "path_form":pf,"hash_seed":0,"fake_time":Value::Null,"lang":Value::Null,"thor_r":true,"thor_v":0,"out_form":of}));
         }
         // re-export in place: the -o / -r paths already hold an older, longer file
         env_jobs.push(json!({"t":"env","project":p,"tool":"thor","use_extra":false,"fs":["stale_output"],"rust_log":Value::Null,
